@@ -30,7 +30,7 @@ sys.path.insert(0, os.path.dirname(os.path.dirname(os.path.abspath(__file__))))
 Q = 4                       # model time unit = 1/Q second
 MON = {'c': 100, 'u': 101, 'd': 102}      # the three monitor callbacks (one per event, registered once)
 MON_OPS = [['A', 'c', 100], ['A', 'u', 101], ['A', 'd', 102]]
-MMSIS = [227006760, 205448890, 786434, 1, 999999999, 366053209]
+MMSIS = [227006760, 205448890, 786434, 1, 999999999, 366053209, 0]       # incl. the smallest (0: falsy) and the largest MMSI
 BASES = [0, 1673259264]
 
 _real_time = _time.time
@@ -1277,6 +1277,23 @@ def directed_config(rng):
     return hs
 
 
+def directed_extreme_mmsi(rng):
+    """The vessel with MMSI 0 (a falsy key) and the one with the largest MMSI: created, updated, expired next to an
+    ordinary vessel, popped by int and by numeric string."""
+    hs = []
+    Z, L, A = 0, 999999999, MMSIS[0]
+    for ordered in (False, True):
+        for real in (True, False):
+            mz = real_message(rng, Z, 1) if real else stub_message(rng, Z)
+            ml, ma = real_message(rng, L, 18), real_message(rng, A, 5)
+            mk = lambda ops, ttl: {'cfg': {'ordered': ordered, 'ttl_q': ttl, 'base': 0}, 'ops': [list(o) for o in MON_OPS] + ops}
+            hs.append(mk([['U', 0, mz, 0], ['U', 1, ml, 1], ['U', 2, mz, 2], ['U', 8, ma, 8], ['C', 13], ['C', 14], ['C', 20]], 12))
+            hs.append(mk([['U', 0, mz, 0], ['C', 12], ['U', 12, mz, 12], ['U', 24, ml, None], ['G', 0], ['U', 40, ma, None]], 12))
+            hs.append(mk([['U', 0, mz, 0], ['U', 0, ml, 0], ['G', 0], ['P', 0], ['P', 0], ['U', 1, mz, 1], ['P', '0'], ['P', L],
+                          ['U', 2, mz, 2], ['P', str(L)], ['C', 50]], None if real else 12))
+    return hs
+
+
 def directed_many(rng, sizes=(70, 130)):
     """More tracks than any constant a scan might be limited to (70 ... 150 vessels) reach the TTL in ONE cleanup() /
     update(), alone or with fresh tracks inserted before / after them."""
@@ -1390,7 +1407,7 @@ def run_common(ctx, prop):
     hs = directed_histories(rng)
     if raising:
         hs += directed_raising(rng)
-    hs += directed_reregistration(rng)
+    hs += directed_reregistration(rng) + directed_extreme_mmsi(rng)
     if with_q:
         hs = [add_queries(h) for h in hs]
     # the configuration changes during the history (new TTL, ordered -> unordered); very many tracks due at once
